@@ -192,12 +192,19 @@ class Build:
         return rc == 0, out
 
     def compile_props(self, prop_file, timeout=900):
-        """(re)compile one Props file, returning (ok, {theorem: assumptions-text}, output)."""
+        """(re)build one Props file and everything it depends on (full .vo build), then compile the Props
+        file itself once more on its own so that the captured `Print Assumptions` output is that file's
+        only (a dependency that is another property's Props file prints its own).
+        Returns (ok, [assumption blocks in order], output)."""
         vo = os.path.join(self.dir, prop_file[:-2] + ".vo")
         if os.path.exists(vo):
             os.remove(vo)
         ok, out = self.make([prop_file[:-2] + ".vo"], timeout)
-        return ok, parse_assumptions(out), out
+        if not ok:
+            return ok, parse_assumptions(out), out
+        os.remove(vo)
+        rc, out2 = self.sh(f"timeout {int(timeout)} coqc -Q . Verif {prop_file}", timeout + 30)
+        return rc == 0, parse_assumptions(out2), out + "\n" + out2
 
     def hygiene(self, only=None):
         """forbidden vernacular in the scratch development (comments stripped); `only`: restrict to
